@@ -629,3 +629,8 @@ def run(prog, rep, tier, snap):
     rep.rule("R18.8", "the duration reader reads what echsd/echsq write for limits (every grammatical spelling, incl. PnDTnH...; shared with C18)", 1)
     rep.call(c18.r18_8, prog, rep)
 READY = True
+
+# texts brought up to date with the rules added in the last rounds
+LEVEL_TEXT = LEVEL_TEXT + ' Also: the deadline signal is deliverable at the spawn (signal mask as ghost state on every path); DUE is stored in UTC; the duration reader takes single components far beyond their usual range (what echsd writes for limits over a day).'
+TECHNIQUE = (TECHNIQUE if isinstance(TECHNIQUE, str) else TECHNIQUE) + "; ghost-state walk of the executor's signal mask"
+
